@@ -16,36 +16,85 @@ pub struct State {
 
 fn enc_obs(out: &mut String, m: &DiameterMessage) {
     let mut buf = Vec::new();
-    match m.encode_to(&mut buf) {
-        Ok(()) => {
-            out.push_str(" ENC ");
-            hex(out, &buf);
+    let first = m.encode_to(&mut buf).is_ok();
+    if first {
+        out.push_str(" ENC ");
+        hex(out, &buf);
+    } else {
+        out.push_str(" ENC ERR");
+    }
+    // encoding is a function of the message: asked again, the same object must give the same answer
+    // (a value or message that caches its wire image, or scratch state kept between calls, would not)
+    let mut buf2 = Vec::new();
+    let second = m.encode_to(&mut buf2).is_ok();
+    if second != first || (first && buf2 != buf) {
+        out.push_str(" ENC2DIFF ");
+        if second {
+            hex(out, &buf2[..buf2.len().min(64)]);
+        } else {
+            out.push_str("ERR");
         }
-        Err(_) => out.push_str(" ENC ERR"),
     }
 }
 
-/// Decodes on a thread with an ordinary 2 MiB stack; a panic is reported as Err(text).
+type DecodeJob = (Vec<u8>, Arc<Dictionary>, std::sync::mpsc::Sender<std::result::Result<diameter::Result<DiameterMessage>, String>>);
+
+thread_local! {
+    static DECODER: std::cell::RefCell<Option<std::sync::mpsc::Sender<DecodeJob>>> = std::cell::RefCell::new(None);
+}
+
+fn decoder_thread() -> std::result::Result<std::sync::mpsc::Sender<DecodeJob>, String> {
+    let (tx, rx) = std::sync::mpsc::channel::<DecodeJob>();
+    std::thread::Builder::new()
+        .stack_size(2 * 1024 * 1024)
+        .spawn(move || {
+            for (bytes, dict, back) in rx {
+                let r = catch_unwind(AssertUnwindSafe(|| {
+                    let mut cur = Cursor::new(bytes);
+                    DiameterMessage::decode_from(&mut cur, dict)
+                }));
+                let r = r.map_err(|e| {
+                    if let Some(s) = e.downcast_ref::<String>() {
+                        s.clone()
+                    } else if let Some(s) = e.downcast_ref::<&str>() {
+                        s.to_string()
+                    } else {
+                        "panic".to_string()
+                    }
+                });
+                let _ = back.send(r);
+            }
+        })
+        .map_err(|e| format!("spawn: {}", e))?;
+    Ok(tx)
+}
+
+/// Decodes on a thread with an ordinary 2 MiB stack; a panic is reported as Err(text).  The thread is long-lived -
+/// one worker decodes every frame of this process, like a connection task of a server does - so that whatever the
+/// library keeps between calls on a thread (scratch buffers, counters, memo tables) is carried from case to case.
 pub fn decode_isolated(
     bytes: Vec<u8>,
     dict: Arc<Dictionary>,
 ) -> std::result::Result<diameter::Result<DiameterMessage>, String> {
-    let h = std::thread::Builder::new()
-        .stack_size(2 * 1024 * 1024)
-        .spawn(move || {
-            let mut cur = Cursor::new(bytes);
-            DiameterMessage::decode_from(&mut cur, dict)
-        })
-        .map_err(|e| format!("spawn: {}", e))?;
-    h.join().map_err(|e| {
-        if let Some(s) = e.downcast_ref::<String>() {
-            s.clone()
-        } else if let Some(s) = e.downcast_ref::<&str>() {
-            s.to_string()
-        } else {
-            "panic".to_string()
+    let tx = DECODER.with(|d| -> std::result::Result<_, String> {
+        let mut d = d.borrow_mut();
+        if d.is_none() {
+            *d = Some(decoder_thread()?);
         }
-    })
+        Ok(d.as_ref().unwrap().clone())
+    })?;
+    let (back, res) = std::sync::mpsc::channel();
+    if tx.send((bytes, dict, back)).is_err() {
+        DECODER.with(|d| *d.borrow_mut() = None);
+        return Err("decoder thread is gone".into());
+    }
+    match res.recv() {
+        Ok(r) => r,
+        Err(_) => {
+            DECODER.with(|d| *d.borrow_mut() = None);
+            Err("decoder thread died".into())
+        }
+    }
 }
 
 /// Runs one construction history; Ok(Err(line)) = the start failed (line is the observation).
@@ -79,7 +128,37 @@ fn build_history(st: &State, t: &mut Toks) -> PResult<std::result::Result<(Diame
     };
     let nops = t.usize_dec()?;
     let mut statuses = String::new();
+    // Lookups are pure: the message is also looked into BETWEEN construction steps (results discarded), with the codes it
+    // holds, a few it does not hold, and the codes the case will ask for at its end (the trailing "<k> c1..ck" of a G
+    // line) - so that anything a lookup might remember is stale by the time the observed lookups run.
+    let probes: Vec<u32> = {
+        let mut v = vec![263u32, 264, 268, 999_999];
+        for k in 1..=16usize {
+            let n = t.toks_len();
+            if n > k + 1 && t.tok_at(n - k - 1).and_then(|s| s.parse::<usize>().ok()) == Some(k) {
+                for i in 0..k {
+                    if let Some(c) = t.tok_at(n - k + i).and_then(|s| u32::from_str_radix(s, 16).ok()) {
+                        v.push(c);
+                    }
+                }
+                break;
+            }
+        }
+        v
+    };
+    let look = |m: &DiameterMessage| {
+        for c in &probes {
+            let _ = m.get_avp(*c);
+        }
+        let codes: Vec<u32> = m.get_avps().iter().map(|a| a.get_code()).collect();
+        for c in codes {
+            let _ = m.get_avp(c);
+        }
+        let _ = m.get_length();
+    };
+    look(&m);
     for _ in 0..nops {
+        look(&m);
         let ok = match t.next()? {
             "ADD" => {
                 let e = parse_aexp(t)?;
@@ -378,6 +457,14 @@ fn run_faultwrite(st: &State, t: &mut Toks) -> PResult<String> {
                 hex(&mut out, &w.accepted[..64]);
             }
             let _ = write!(out, " LEN {:x}", m.get_length());
+            // after a faulted (or complete) run the same message, encoded into memory twice, must give one answer
+            let mut e1 = Vec::new();
+            let r1 = m.encode_to(&mut e1).is_ok();
+            let mut e2 = Vec::new();
+            let r2 = m.encode_to(&mut e2).is_ok();
+            if r1 != r2 || (r1 && e1 != e2) || (r.is_ok() && (!r1 || e1 != w.accepted)) {
+                out.push_str(" ENC2DIFF after-fault");
+            }
             Ok(out)
         }
     }
@@ -568,6 +655,11 @@ pub fn handle(st: &mut State, line: &str) -> String {
                     ops.push(parse_dop(&mut t)?);
                 }
                 st.dicts.insert(id, Arc::new(build_dict(ops)));
+                Ok("OK".into())
+            }
+            // forget a dictionary: its Arc is dropped here (the allocator will typically hand the same address to the next one)
+            "DROP" => {
+                st.dicts.remove(t.next()?);
                 Ok("OK".into())
             }
             "H" => run_history(st, &mut t),
